@@ -540,6 +540,17 @@ func TestVerifC04(t *testing.T) {
 		}
 		walk(nil)
 	}
+	// two devices of the account writing concurrently (no exchange in between): every ordered pair of operations of the
+	// reduced alphabet, the two heads delivered together, in order and reversed
+	for _, a := range reduced {
+		for _, b := range reduced {
+			if rep.ViolationCount() > 300 {
+				break
+			}
+			count++
+			c04RunHistory(ctx, rep, pool, rng, protocoltypes.GroupType_GroupTypeAccount, []c04Step{{0, a}, {1, b}}, true, 3, fmt.Sprintf("exhaustive-concurrent-pair-%d", count))
+		}
+	}
 	exhaust(protocoltypes.GroupType_GroupTypeContact, c04ContactOps(), 3, 1, "contact")
 	exhaust(protocoltypes.GroupType_GroupTypeContact, c04ContactOps(), verifkit.Pick(2, 3), 2, "contact-2w")
 	exhaust(protocoltypes.GroupType_GroupTypeMultiMember, c04MultiMemberOps(), verifkit.Pick(2, 3), 1, "multimember")
